@@ -383,8 +383,8 @@ def obligations(tier):
     q = tier == "quick"
     npts = 2 if q else 3
     obs = [
-        Ob("sphere", sphere_ball("sample_sphere", npts), covers=COVERS, split=3, note="sample_sphere: symbolic centre, radius, draws"),
-        Ob("ball", sphere_ball("sample_ball", npts), covers=COVERS, split=3, note="sample_ball: symbolic centre, radius, draws"),
+        Ob("sphere", sphere_ball("sample_sphere", 2), covers=COVERS, split=3, note="sample_sphere: symbolic centre, radius, draws (n_pts <= 2)"),
+        Ob("ball", sphere_ball("sample_ball", 2), covers=COVERS, split=3, note="sample_ball: symbolic centre, radius, draws (n_pts <= 2)"),
         Ob("aabb-uniform", aabb([1, 2] if q else [1, 2, 3], ["uniform"], [1, 2] if q else [1, 2, 3]), covers=COVERS, split=4,
            note="sample_AABB uniform mode"),
         Ob("aabb-grid", aabb([1, 2, 3], ["grid"], [1, 4, 8, 9, 27]), covers=COVERS, split=4, note="sample_AABB grid mode"),
@@ -397,5 +397,7 @@ def obligations(tier):
         Ob("e2-as_polyline", c14.e2_kernel("as_polyline", E2), covers=COVERS, note="kernelsmt: as_polyline indices for all sample counts"),
     ]
     if not q:
+        obs.append(Ob("ball-3", sphere_ball("sample_ball", 3), covers=COVERS, split=3, required=False, path_wall_s=240.0,
+                      note="sample_ball with up to 3 points (depth)"))
         obs.append(Ob("bezier-hull", bezier_hull(3), covers=COVERS, required=False, note="1-D convex hull property, order 3"))
     return obs
